@@ -99,6 +99,27 @@ def chCap : Nat := 128
 def unlockAll (s : State) : State :=
   (List.range s.clients.length).foldl (fun s c => step s (.lockrec c false)) s
 
+def clearSendFail (s : State) : State :=
+  s.streams.foldl (fun s st => step s (.sendfail st.cid st.fwd false)) s
+
+def flushWith (d : DState) (cancels : List Nat) (wait : Bool) : DState × String :=
+  let s := d.s
+  let s0 := if d.dirty then step s .breset else s
+  -- flushwait: all connections unlocked, no injected Send failure; callers completed by the first half
+  -- ("no available connections") leave before anybody cancels
+  let s0 := if wait then clearSendFail (unlockAll s0) else s0
+  let sb := step s0 .flushBegin
+  let sb := if wait then (wakeAll sb).1 else sb
+  let s1 := step (cancels.foldl (fun s h => step s (.cancel h)) sb) .flushEnd
+  -- the groups built by this flush: new allocLog entries, chronological
+  let newAlloc := (s1.allocLog.take (s1.allocLog.length - s.allocLog.length)).reverse
+  let fwds := sortNat ((newAlloc.filterMap fun (_, h) => (s.entries[h]?).map (·.fwd)).eraseDups)
+  let grps := fwds.map fun f =>
+    let its := newAlloc.filter fun (_, h) => match s.entries[h]? with | some e => e.fwd = f | none => false
+    s!"grp {f} " ++ " ".intercalate (its.map fun (id, h) => s!"{id}:{h}")
+  let (s2, o) := finish s s1 ([s!"idx {s1.index}"] ++ grps ++ [s!"q {natList s1.heap}", s!"ida {s1.idAlloc}"])
+  ({ s := s2, dirty := true }, o)
+
 def stepOpen (d : DState) (line : String) : DState × String :=
   let s := d.s
   match words line with
@@ -131,17 +152,12 @@ def stepOpen (d : DState) (line : String) : DState × String :=
     let s1 := step s .breset
     let (s2, o) := finish s s1 [s!"q {natList s1.heap}"]
     ({ s := s2, dirty := false }, o)
-  | ["flush"] =>
-    let s0 := if d.dirty then step s .breset else s
-    let s1 := step s0 .flush
-    -- the groups built by this flush: new allocLog entries, chronological
-    let newAlloc := (s1.allocLog.take (s1.allocLog.length - s.allocLog.length)).reverse
-    let fwds := sortNat ((newAlloc.filterMap fun (_, h) => (s.entries[h]?).map (·.fwd)).eraseDups)
-    let grps := fwds.map fun f =>
-      let its := newAlloc.filter fun (_, h) => match s.entries[h]? with | some e => e.fwd = f | none => false
-      s!"grp {f} " ++ " ".intercalate (its.map fun (id, h) => s!"{id}:{h}")
-    let (s2, o) := finish s s1 ([s!"idx {s1.index}"] ++ grps ++ [s!"q {natList s1.heap}", s!"ida {s1.idAlloc}"])
-    ({ s := s2, dirty := true }, o)
+  | "flushwait" :: hs =>
+    -- getClientAndSend whose first `send` waits for the connection; the callers `hs` cancel while it waits
+    match hs.mapM (·.toNat?) with
+    | some hs => flushWith d hs true
+    | none => (d, "bad-op")
+  | ["flush"] => flushWith d [] false
   | "recv" :: cid :: fwd :: ids =>
     match cid.toNat?, fwd.toNat?, ids.mapM (·.toNat?) with
     | some cid, some fwd, some ids =>
